@@ -31,7 +31,7 @@ Init ==
     est |-> FALSE,          \* handshake completed
     term |-> FALSE,         \* the connection is ending (cause seen)
     cause |-> "none",       \* first termination cause: peer | local | proto | error
-    maxReceive |-> 16, maxQos |-> 2, aliasMax |-> 32, recvSize |-> 65535,
+    maxReceive |-> 16, rmFixed |-> FALSE, maxQos |-> 2, aliasMax |-> 32, recvSize |-> 65535,
     \* publishes in arrival order:
     \*   [n, id, q, topic, size, st, h, acked, recd, rel, comp, code, refused, relProduced, noalias]
     \*   st: arrived | started | ok | err | nack
@@ -98,15 +98,17 @@ MaybeBusyBefore(m, id, n) ==
 
 ----------------------------------------------------------------------------
 OnCfg(m, ev) ==
-  CASE ev.k = "max_receive" -> [m EXCEPT !.maxReceive = ev.n]
+  \* (cfg events arrive in alphabetical order: the value negotiated in CONNECT / CONNACK wins over the
+  \*  configured default, and for a v5 client max_receive is not the Receive Maximum at all)
+  CASE ev.k = "max_receive" -> IF m.rmFixed \/ (m.role = "client" /\ m.ver = 5) THEN m ELSE [m EXCEPT !.maxReceive = ev.n]
     [] ev.k = "max_qos" -> [m EXCEPT !.maxQos = ev.n]
     [] ev.k = "ack_max_qos" -> [m EXCEPT !.maxQos = ev.n]
     [] ev.k = "max_topic_alias" -> [m EXCEPT !.aliasMax = ev.n]
     [] ev.k = "ack_topic_alias_max" -> [m EXCEPT !.aliasMax = ev.n]
     [] ev.k = "client_topic_alias_max" -> [m EXCEPT !.aliasMax = ev.n]
     [] ev.k = "max_receive_size" -> [m EXCEPT !.recvSize = ev.n]
-    [] ev.k = "ack_receive_max" -> [m EXCEPT !.maxReceive = ev.n]
-    [] ev.k = "client_receive_max" -> [m EXCEPT !.maxReceive = ev.n]
+    [] ev.k = "ack_receive_max" -> [m EXCEPT !.maxReceive = ev.n, !.rmFixed = TRUE]
+    [] ev.k = "client_receive_max" -> [m EXCEPT !.maxReceive = ev.n, !.rmFixed = TRUE]
     [] ev.k = "gate_stop" -> [m EXCEPT !.gateStop = (ev.n # 0)]
     [] ev.k = "router" -> [m EXCEPT !.router = (ev.n # 0), !.noCtl = (ev.n # 0 /\ m.role = "client")]
     [] OTHER -> m
@@ -434,6 +436,9 @@ OnFinal(m, ev) ==
   ELSE IF \E i \in 1..Len(m.reqs) : m.reqs[i].st = "wait" /\ m.reqs[i].kind # "pubrel_early"
     THEN Fail(m, IF \E i \in 1..Len(m.reqs) : m.reqs[i].st = "wait" /\ m.reqs[i].kind = "pubrel_nf"
                    THEN "C11:pubrel-for-unknown-id-not-answered-with-0x92" ELSE "C04:response-lost")
+  ELSE IF ev.n > 0 /\ ev.s = 0 /\ \E i \in 1..Len(m.pubs) : m.pubs[i].st = "started"
+    THEN \* a handler is still waiting for payload bytes that sit unread in the transport
+         Fail(m, "C12:reading-never-resumed")
   ELSE IF ev.n > 0 THEN Fail(m, "C16:endpoint-stopped-reading-without-ending-the-connection")
   ELSE m
 
